@@ -2,7 +2,7 @@
 use std::fmt::Display;
 
 use bigdecimal::BigDecimal;
-use serde::de::value::{Error as ValueError, F32Deserializer, F64Deserializer, I128Deserializer, I16Deserializer, I32Deserializer, I64Deserializer, I8Deserializer, StrDeserializer, StringDeserializer, U128Deserializer, U16Deserializer, U32Deserializer, U64Deserializer, U8Deserializer};
+use serde::de::value::{BoolDeserializer, BytesDeserializer, CharDeserializer, UnitDeserializer, Error as ValueError, F32Deserializer, F64Deserializer, I128Deserializer, I16Deserializer, I32Deserializer, I64Deserializer, I8Deserializer, StrDeserializer, StringDeserializer, U128Deserializer, U16Deserializer, U32Deserializer, U64Deserializer, U8Deserializer};
 use serde::de::IntoDeserializer;
 use serde::{Deserialize, Serialize};
 use serde_json::{json, Value};
@@ -152,6 +152,11 @@ pub fn exec_more(ev: &Value) -> Value {
                 "f64" => { let f = f64::from_bits(json_to_bigint(&ev["bits"]).to_u64().unwrap()); let de: F64Deserializer<ValueError> = f.into_deserializer(); dres(BigDecimal::deserialize(de)) }
                 "str" => { let s = json_to_text(&ev["text"]); let de: StrDeserializer<ValueError> = s.as_str().into_deserializer(); dres(BigDecimal::deserialize(de)) }
                 "string" => { let s = json_to_text(&ev["text"]); let de: StringDeserializer<ValueError> = s.into_deserializer(); dres(BigDecimal::deserialize(de)) }
+                // tokens a decimal cannot be made of: an error value, never a panic
+                "bool" => { let de: BoolDeserializer<ValueError> = true.into_deserializer(); dres(BigDecimal::deserialize(de)) }
+                "char" => { let de: CharDeserializer<ValueError> = '7'.into_deserializer(); dres(BigDecimal::deserialize(de)) }
+                "unit" => { let de: UnitDeserializer<ValueError> = ().into_deserializer(); dres(BigDecimal::deserialize(de)) }
+                "bytes" => { let b: &[u8] = b"12.5"; let de: BytesDeserializer<ValueError> = BytesDeserializer::new(b); dres(BigDecimal::deserialize(de)) }
                 _ => panic!("HARNESS: unknown token type {}", ty),
             }
         }
